@@ -885,7 +885,10 @@ def run_damage_config(run, vsim, d, quick, model, cfgname):
         for m in re.finditer(rb"grid_parameters|hills_energy|\ngrid\n|\}\n [-0-9]", text):
             offs |= {m.start(), m.start() + 3, m.end(), m.end() + 1, m.end() + 9}
     else:
-        offs = set(range(n))
+        # every second offset, every offset around the block boundaries
+        offs = set(range(0, n, 2))
+        for a, b, kw in obj_blocks:
+            offs |= set(range(max(0, a - 12), min(n, a + 4))) | set(range(max(0, b - 3), min(n, b + 3)))
     verdicts = []
     for cut in sorted(o for o in offs if 0 <= o < n):
         open(p, "wb").write(text[:cut])
@@ -924,7 +927,8 @@ def run_damage_config(run, vsim, d, quick, model, cfgname):
             # (no binary model for these: a sample; the thorough tier takes every offset)
             boffs = set(r.sample(sorted(boffs), 150)) | set(range(max(5, nb - 16), nb))
     else:
-        boffs = set(range(5, nb))
+        # every offset (the binary states of these configurations are small); OPES: every second one
+        boffs = set(range(5, nb)) if cfgname != "extra" else (set(range(5, nb, 2)) | set(range(max(5, nb - 40), nb)))
     nacc = 0
     bverdicts = []
     for cut in sorted(boffs):
@@ -1054,7 +1058,7 @@ def run_damage(run, vsim, d, quick, model=None):
                     run.mismatch("binary-reader-tie", {"cut": cut, "of": n, "hill_starts": hill_starts[:3]}, verdict, mo.strip())
             stats["binary_reader_model_cases"] = len(lines)
             stats["binary_reader_model_disagreements"] = ndis
-        flips = [(r.randrange(n), r.randrange(8)) for j in range(60 if quick else 1500)]
+        flips = [(r.randrange(n), r.randrange(8)) for j in range(60 if quick else 1000)]
         if nm == "text":
             # aimed: every byte of the configuration block (step, dt, version, units and the separators)
             a0 = data.find(b"{"); b0 = data.find(b"}")
